@@ -63,6 +63,9 @@ def run(ctx) -> None:
     r12_5(ctx, info)
     r12_6(ctx)
     r12_7(ctx, info)
+    from .common import descriptor_binding
+    descriptor_binding(ctx, "R12.8", ("functools",))
+    ctx.floor("descriptors", 1)
     ctx.floor("slot_tests", 2)
 
 
@@ -98,9 +101,21 @@ def roles(ctx, info) -> dict:
                 and isinstance(r.value.func.value.func, ast.Attribute) and norm(r.value.func.value.func.value) == "self":
             out["impl"] = info.methods.get(r.value.func.value.func.attr)
     want = f"self.{F['instance']}.__dict__[self.{F['name']}]"
+    from .common import inline_locals
     for m in info.methods.values():
-        if any(isinstance(x, ast.Subscript) and isinstance(x.ctx, ast.Load) and norm(x) == want for x in own_nodes(m.node)):
-            out["slot_read"] = m
+        mcfg = None
+        for x in own_nodes(m.node):
+            if not (isinstance(x, ast.Subscript) and isinstance(x.ctx, ast.Load)):
+                continue
+            text = norm(x)
+            if text != want and isinstance(x.value, ast.Name):
+                # the instance dictionary held in a local first (``cache = self._instance.__dict__``)
+                mcfg = mcfg or cfg_of(m)
+                at = next((n for n in mcfg.nodes if not n.tag and n.stmt is not None and any(y is x for y in ast.walk(n.stmt))), None)
+                if at is not None:
+                    text = norm(inline_locals(ctx, m, mcfg, at, x))
+            if text == want:
+                out["slot_read"] = m
     if out.get("impl") is None or out.get("slot_read") is None:
         raise AnalysisError(f"{PLACEHOLDER}: cannot identify the await implementation / the slot read (anchor moved)")
     out["slot_name"] = out["slot_read"].qualname.rsplit(".", 1)[-1]
